@@ -66,6 +66,14 @@ def plan(plan, tier, seed):
     except AnchorLost as e:
         plan.anchor_errors.append((n7, str(e)))
     plan.dropped.append(vC17.kind_fn.__doc__.strip())
+    n9 = "C17.verus.state_name_from_pattern.tuple_struct_or_atom"
+    plan.ob(n9, "verus", "proved", functions=["state_name_from_pattern (whole body)"],
+            what="the state a pattern names -- what the coverage validation compares with the declared states -- is the name of a `:Name(..)` pattern or of a bare atom `:Name`; every other pattern names no state")
+    try:
+        plan.verus.append(VerusUnit("c17_state_name", vC17.state_name_unit(text), {"state_name_from_pattern": n9}, ["canary_sname"]))
+    except AnchorLost as e:
+        plan.anchor_errors.append((n9, str(e)))
+    plan.dropped.append(vC17.state_name_unit.__doc__.strip())
     n8 = "C17.verus.pattern_to_value.state_rebuilt_in_order"
     plan.ob(n8, "verus", "proved", functions=["src/interpreter/src/patterns.rs: pattern_to_value (the tuple arm; the tuple construction of the tuple-struct arm)"],
             what="the state a transition pattern `:S(e1, .., en)` denotes is the tuple (atom :S, value of e1, .., value of en), each element evaluated once and in order; a tuple pattern denotes the tuple of its elements' values; a failing element is an error -- for every environment and every behaviour of the element evaluation")
